@@ -34,7 +34,9 @@ class CycleNode(Node):
         super().__init__(token)
         self.name = name
         self.items = tuple(items)
-        self.cycle_hash = hash((self.name, self.items))
+        # Items as they are written. Hashes can collide (`-1` and `-2`, the variable
+        # `a` and the string "a") and are different in every process.
+        self.cycle_hash = (self.name, tuple(str(item) for item in self.items))
         self.blank = False
 
     def __str__(self) -> str:
